@@ -70,7 +70,7 @@ ASSUMPTIONS = [
     "back-edges are made at the top level of the workflow (not inside nested workflows)",
 ]
 SHARDS = {"quick": 16, "thorough": 16}
-WALL = {"quick": 240, "thorough": 1500}
+WALL = {"quick": 400, "thorough": 1500}
 
 CPU_FLOOR = 60.0
 WALL_FLOOR = 75.0      # 60 s + the 11 x 1 s polls of expand_workflow_async's stall branch
